@@ -272,6 +272,7 @@ func Load(o LoadOpts) (*Prog, error) {
 			}
 		}
 	}
+	curProg = p
 	return p, nil
 }
 
